@@ -197,6 +197,7 @@ class Body:
         self.is_coroutine = False
         self.allocs = {}        # alloc id -> {'static': name or None, 'bytes': bytes or None}
         self.file = ""
+        self.uid = ""
 
 
 INT_TYPES = {"u8": (8, False), "u16": (16, False), "u32": (32, False), "u64": (64, False), "u128": (128, False),
@@ -686,7 +687,10 @@ def load_dir(d, suffix="StateTransform.before.mir"):
             continue
         try:
             b = parse_body(os.path.join(d, f))
-            bodies[b.name] = b
+            # unique id from the file name (the pretty name of the header is ambiguous for impls
+            # generated by one macro invocation: they all share the invocation's span)
+            b.uid = f.split(".2-2-")[0] if ".2-2-" in f else f
+            bodies[b.uid] = b
         except MirUnsupported as e:
             errors[f] = str(e)
         except Exception as e:  # parser bug: report as unsupported, with location
